@@ -3,6 +3,7 @@ proof obligations + engine correspondence on generated histories + the
 property's oracle on the implementation's own snapshots (histories and real
 solver output)."""
 import random
+import re
 
 import common as C
 import engine_corr as E
@@ -39,9 +40,17 @@ def full_stage(chk, pid, tier, seed):
             nout += 1
             fails = OF.check_output(inp, opts, json.loads(js)).get(pid)
             if fails:
-                nviol += 1
-                chk.violation({"kind": "input", "what": fails[0], "failures": fails[:6], "input": inp, "options": opts,
-                               "how_to_replay": "harness `crash` with output=2 and lib/oracles_full.check_output"})
+                obj = {"kind": "input", "what": fails[0], "failures": fails[:6], "input": inp, "options": opts,
+                       "how_to_replay": "bin/check --property %s --replay <this file>" % pid}
+                # solutions in which only members of a stop group are lost / split / double-booked: the solver's un-plan
+                # operators un-plan MEMBER units (finding N1), the group can then never be completed again
+                members = {x for g in (inp.get("stop_groups") or []) for x in g}
+                ids = [set(re.findall(r"\b(?:s|alt)\d+\b", f)) for f in fails]
+                if members and all(i and i <= members for i in ids):
+                    obj["finding_shape"] = {"kind": "solver_output", "symptom": "group_members", "oracle": pid}
+                if chk.match_known(obj) is None:
+                    nviol += 1
+                chk.violation(obj)
                 break
     chk.ob("property predicate on the CLI output of every delivered solution for %d full-feature inputs (%d outputs)" % (len(blocks), nout), nviol == 0)
     chk.ev.cov["full_feature_inputs"] = len(blocks)
@@ -82,6 +91,18 @@ def nested_stage(chk, pid, tier, seed, names, check_c07):
         ops.append(rng.choice(["op munplanr %d", "op munplanr %d", "op unplanr %d", "op vunplanr %d"]) % rng.randrange(1 << 20))
         ops += [plan(), "op snapall"]
         cases.append({"id": "s%d" % i, "model": m, "ops": ops})
+    # initial / fixed stops WITHOUT groups: vehicle-level un-plan with fixed stops in the way (can be rejected and rolled back)
+    for i in range(max(40, n // 3)):
+        m = G.gen_model(rng, "small", {"groups": False, "initial": True, "windows": rng.random() < 0.7, "maxwait_stop": rng.random() < 0.5,
+                                        "precedence": i % 2 == 0})
+        if i % 2:
+            m = G.force_fixed_dependency(m, rng)       # a fixed stop that depends on a removable one: rejected un-plans
+        plan = lambda: G.gen_ops(rng, m, 1, "plan_only")[0]  # noqa: E731
+        ops = []
+        for _ in range(rng.randint(2, 8)):
+            ops.append(plan() if rng.random() < 0.6 else rng.choice(["op vunplanr %d", "op unplanr %d"]) % rng.randrange(1 << 20))
+        ops.append("op snapall")
+        cases.append({"id": "i%d" % i, "model": m, "ops": ops})
     n = len(cases)
     res, st = E.run_cases(cases, "%s_nested_%s" % (pid.lower(), tier), timeout=3000)
     bad = [r for r in res if r["diff"]]
@@ -124,7 +145,7 @@ def nested_stage(chk, pid, tier, seed, names, check_c07):
                 nviol += 1
                 chk.violation({"kind": "history", "what": msg, "oracle": name, "step": k,
                                "finding_shape": {"kind": "nested", "oracle": name, "op": op, "result": st_["result"],
-                                                 "group": group, "detail": detail, "tainted": tainted},
+                                                 "group": group, "detail": detail, "tainted": tainted, "has_groups": bool(m.get("groups"))},
                                "case": G.case_lines(m, ops[:k])})
             if op in ("munplanr", "vunplanr") or (op == "unplanr" and group) or (op in ("planr", "plancr") and group and st_["result"] != "done") \
                     or (op == "build" and fails):
@@ -172,6 +193,8 @@ def run(pid, tier, seed, oracle_names, title, feats=None, check_c07=False, extra
     if not chk.builds(model=True, harness=True):
         return chk.finish()
     chk.proofs()
+    if pid == "C03":
+        chk.proofs("Order")     # order and direct adjacency of a unit's stops are kept by order-respecting moves (and by the generators' moves)
     if pid in ("C03", "C05", "C07", "C08"):
         chk.proofs("Units")     # nested units: conservative extension, defect witnesses N1/N2/N4/N7, units-move rollback
     nh, ns = (150, 25) if tier == "quick" else (4000, 600)
@@ -202,6 +225,16 @@ def run(pid, tier, seed, oracle_names, title, feats=None, check_c07=False, extra
     chk.ob("%s on every intermediate state of the histories (implementation's snapshots, recomputed from the input)" % title, nviol == 0)
     # real solver output
     sc = S.make_solve_cases(seed * 2003 + int(pid[1:]), ns, solver_settings, size=size, feats=solver_feats or feats)
+    if pid == "C03":
+        # join shapes (a -> c direct, b -> c): the only allowed order is b a c; a cheap geometry for a b c tempts the search
+        import p_c10
+        jr = random.Random(seed * 2003 + 303)
+        joins = S.make_solve_cases(seed * 2003 + 3030, max(10, ns // 2), solver_settings, size=size,
+                                   feats={"precedence": True, "capacity": False, "windows": False, "maxstops": False, "maxdist": False})
+        for c in joins:
+            c["id"] = "j" + c["id"]
+            c["model"] = p_c10.add_joins(jr, c["model"])
+        sc += joins
     for k, cc in enumerate(FW.load_corpus(pid)):
         if cc.get("kind") == "solve":
             m = cc["model"]
